@@ -170,6 +170,32 @@ def rotG {K} [OfNat K 0] [OfNat K 1] [OfNat K 2] [OfNat K 3] [OfNat K 4] [Neg K]
   | 5 => coefXXX q + coefXZZ q / 4
   | _ => -(coefYYY q) - coefYZZ q / 4
 
+/-! ### local frames: `read_xzaxis` / `get_perpendicular_coplanar_vector` (before normalisation) -/
+
+def cross3 {K} [Sub K] [Mul K] (u v : V3 K) : V3 K := fun a =>
+  match a.val with
+  | 0 => u 1 * v 2 - u 2 * v 1
+  | 1 => u 2 * v 0 - u 0 * v 2
+  | _ => u 0 * v 1 - u 1 * v 0
+
+def dotV {K} [Add K] [Mul K] (u v : V3 K) : K := u 0 * v 0 + u 1 * v 1 + u 2 * v 2
+
+/-- `get_perpendicular_coplanar_vector(a, b)`: `c = cross(a, b); c = cross(c, a)` (the code then divides by the norm;
+    it raises when `|cross(a,b)| ≤ 1e-5`) -/
+def perpCoplanar {K} [Sub K] [Mul K] (a b : V3 K) : V3 K := cross3 (cross3 a b) a
+
+def ex {K} [OfNat K 0] [OfNat K 1] : V3 K := fun a => match a.val with | 0 => 1 | _ => 0
+def ey {K} [OfNat K 0] [OfNat K 1] : V3 K := fun a => match a.val with | 1 => 1 | _ => 0
+
+/-- `read_xzaxis(None, zaxis)`: the x axis of the frame is the part of the Cartesian x perpendicular to z;
+    y = cross(z, x) -/
+def frameX {K} [Sub K] [Mul K] [OfNat K 0] [OfNat K 1] (z : V3 K) : V3 K := perpCoplanar z ex
+
+/-- the shortcut "z nearly along the Cartesian x: take the Cartesian y as x axis, without orthogonalising"
+    (NOT what the code does) -/
+def frameXShortcut (z : V3 Rat) : V3 Rat :=
+  if dotV (cross3 z ex) (cross3 z ex) < 1 / 10000 then ey else perpCoplanar z ex
+
 /-! ### hybrids and Dwann on index functions -/
 
 def sumRange {K} [Add K] [OfNat K 0] : Nat → (Nat → K) → K
